@@ -104,7 +104,7 @@ def gen_actions(r: random.Random, n: int, weights: dict[str, float] | None = Non
         elif a == 'conflict422':
             acts.append({'a': a, 'count': r.choice([1, 1, 2])})
         elif a == 'race_edit':
-            acts.append({'a': a, 'obj': obj, 'patch': {'a': r.randrange(400, 500)}, 'hops': r.randrange(0, 14), 'nth_timer': r.choice([0, 0, 0, 1])})
+            acts.append({'a': a, 'obj': obj, 'patch': {'a': r.randrange(400, 500)}, 'hops': r.choice([0, 0, 0, 1, 2, 3, 5, 8, 13]), 'nth_timer': r.choice([0, 0, 0, 1, 2])})
         else:
             acts.append({'a': a, 'obj': obj})
     return acts
